@@ -93,7 +93,7 @@ def mirror(op, args, cmp_unbounded=False, invert_unchecked=False):
             return (True, 0)
         return bounded(a << b)
     if op == "SHR":
-        if b < 0:
+        if b < 0 or b > 2 ** 64 - 1:
             return (True, 0)
         return (False, a >> min(b, 1000))
     if op == "AND":
@@ -193,7 +193,7 @@ def finding_key(row, rep, gf, gv, ef, ev):
             return "NUMEQUAL-bytes:oversize-operand:no-fault"
     if op == "INVERT" and kind == "missing-fault" and fits(args[0]) and not fits(-args[0] - 1):
         return "INVERT:result-exceeds-bound:no-fault"
-    return "%s:%s:%s:%s" % (op, "/".join(class_of(a) for a in args), rep, kind)
+    return "%s:%s:%s" % (op, "/".join(class_of(a) for a in args), kind)
 
 
 DEVIATION_KEYS = ("CMP-AsBigInt:oversize-operand:no-fault", "NUMEQUAL-bytes:oversize-operand:no-fault",
@@ -228,6 +228,7 @@ NEXT Stutter
 CONSTANTS
   SmallBound = 16
   SmallShift = 4
+  SmallShrCount = 12
   Range <- RangeTiny
   ClassSet <- ClassesCore
   CoreSet <- CoreTiny
@@ -284,7 +285,7 @@ def apalache_module(name, exprs, negate=False, deviation=False):
            "VARIABLE",
            "  \\* @type: Int;",
            "  dummy",
-           "INSTANCE NeoVMInt WITH Bound <- 2^256, MaxShift <- 256, CmpUnbounded <- %s, InvertUnchecked <- %s" % (dev, dev)]
+           "INSTANCE NeoVMInt WITH Bound <- 2^256, MaxShift <- 256, MaxShrCount <- 18446744073709551615, CmpUnbounded <- %s, InvertUnchecked <- %s" % (dev, dev)]
     for i, e in enumerate(exprs):
         out.append("Row%d == %s" % (i, e))
     out.append("Init == dummy = 0")
